@@ -46,6 +46,8 @@ def run(ctx):
     base += [s for s in allsc if s["n"] == 600 and s["threads"] == 4 and not s["progress"] and not s["second"]]
     # 40 chains of the generic runner under every pool size (rows must stay in chain order whatever the completion order)
     base += [s for s in allsc if s["n"] == 40 and s["threads"] != 1 and not s["progress"] and not s["second"] and s["seed"] in ("42", "18446744073709551615")]
+    # NUTS (pairs of chains share a start position) under the largest pool as well: nothing may depend on which chain runs first
+    base += [s for s in allsc if s["kind"] == "NUTS" and s["n"] in ns and s["threads"] == 16 and s["concurrent"] == "none" and not s["progress"] and not s["second"]]
     # NUTS chains on the rayon pool + a non-pool thread doing autodiff with a matmul target can deadlock
     # (see the dedicated probe below); keep that combination out of the sampled scenarios
     hazard = lambda s: s["kind"] == "NUTS" and s["concurrent"] == "hmc" and not s["progress"]
